@@ -7,6 +7,11 @@ ALL = ["C%02d" % i for i in range(1, 21)]
 
 # id -> (category, technique, level text, level note, design ref, engine)
 CHECKS = {
+ "C08": ("model_checking",
+         "exhaustive enumeration of source/coordinate assignments ((2^k)^n) for k=2..4 sources over two coordinate families, with compression assignments and delayed sources; first-source-wins oracle on lookups and streams",
+         "For k=2,3,4 sources every assignment 'which sources hold coordinate i' is built for two coordinate families (both sides of the 32-sub-box and 256-block borders at two zoom levels; a sparse-wide level with holes) - 16.9k overlays in quick - with payloads that spell source and coordinate, compression assignments (all equal, all mixed pairs, a mixed triple), sources that answer and open with different delays (first slowest) and every fifth overlay nested in filter_zoom; lookups on the coordinates and their neighbours and streams over levels and boxes must return exactly the first listed source's payload, in the declared (common or none) compression, absent iff no source has it, inside the advertised coverage. The same through real versatiles/pmtiles/tar/mbtiles files (3 assignments in quick, 256 in thorough).",
+         "Coordinate families are fixed (4-6 coordinates); k=4 uses 3 coordinates in quick. 'Coverage is the union' is checked as containment of every returned tile.",
+         "3/C08", "E-enum"),
  "C11": ("model_checking",
          "bounded-exhaustive enumeration (tile catalogue x data tables x all option combinations x layer name x source compression) against a reference join on the independently decoded form",
          "26 catalogue tiles (C10's plus tiles around the named layer: ids as string/int64/sint64/uint64, float vs double, unknown geometry type, duplicate keys and values, unused entries, an untouched second layer, and all key tables of length <= 3 over {id,k}) x 4 data tables x all 8 option combinations x layer name present/absent x source compression (one per cell in quick, all three in thorough) run through the real pipeline stage, lookup and stream; the output is decoded by the harness's own protobuf decoder and must equal the reference join: other layers untouched, id/geometry type/geometry bytes/order of retained features preserved, property sets as joined. Every catalogue tile also goes through VectorTile::from_blob -> to_blob and must keep its decoded content.",
